@@ -17,6 +17,9 @@ impl ZvtParser for RawPacket {
     }
 }
 
+/// plan entries from here on are pauses: PAUSE + n = no byte for n milliseconds (virtual time)
+pub const PAUSE: usize = 1 << 40;
+
 #[derive(Default)]
 pub struct SourceState {
     pub data: Vec<u8>,        // bytes the reader may still get
@@ -46,6 +49,17 @@ impl AsyncRead for ScriptSource {
         if k == 0 {
             s.events.push(json!({"e": "pending", "want": want}));
             cx.waker().wake_by_ref();
+            return Poll::Pending;
+        }
+        if k >= PAUSE {
+            // nothing arrives for (k - PAUSE) milliseconds of virtual time
+            s.events.push(json!({"e": "pending", "want": want}));
+            let w = cx.waker().clone();
+            let ms = (k - PAUSE) as u64;
+            tokio::spawn(async move {
+                tokio::time::sleep(std::time::Duration::from_millis(ms)).await;
+                w.wake();
+            });
             return Poll::Pending;
         }
         let avail = s.data.len() - s.pos;
@@ -157,7 +171,18 @@ pub fn transport_replay(args: &[String]) -> anyhow::Result<()> {
         let lens: Vec<usize> = b["lens"].as_array().unwrap().iter().map(|x| x.as_u64().unwrap() as usize).collect();
         let cut = b["cut"].as_u64().unwrap() as usize;
         let plan: Vec<usize> = b["reads"].as_array().unwrap().iter().map(|r| r[1].as_u64().unwrap() as usize).filter(|k| *k > 0).collect();
-        let written = write_packets(&lens);
+        let mut written = write_packets(&lens);
+        // a peer may announce any length in the extended form: packets flagged in "ext" get the five-byte header
+        if let Some(ext) = b.get("ext").and_then(|e| e.as_array()) {
+            for (j, w) in written.iter_mut().enumerate() {
+                if ext.get(j).and_then(|x| x.as_u64()).unwrap_or(0) == 1 && w.len() >= 3 && w[2] != 0xff {
+                    let n = w[2] as usize;
+                    let mut v = vec![w[0], w[1], 0xff, n as u8, 0];
+                    v.extend_from_slice(&w[3..]);
+                    *w = v;
+                }
+            }
+        }
         let mut stream: Vec<u8> = written.concat();
         let full = stream.len();
         stream.truncate(cut);
@@ -212,7 +237,18 @@ pub fn transport_trace(args: &[String]) -> anyhow::Result<()> {
         let k = (rng.range(1, 6) as usize).min(lens.len() - i);
         let group = &lens[i..i + k];
         i += k;
-        let written = write_packets(group);
+        let mut written = write_packets(group);
+        // one short packet in eight is announced in the extended form (a peer may do that; the reader has to follow the header)
+        let mut forced: Vec<u8> = vec![0; written.len()];
+        for (j, w) in written.iter_mut().enumerate() {
+            if w.len() >= 3 && w[2] != 0xff && rng.chance(1, 8) {
+                forced[j] = 1;
+                let n = w[2];
+                let mut v = vec![w[0], w[1], 0xff, n, 0];
+                v.extend_from_slice(&w[3..]);
+                *w = v;
+            }
+        }
         let mut stream: Vec<u8> = written.concat();
         let full = stream.len();
         let cut = if rng.chance(1, 5) { rng.below(full as u64 + 1) as usize } else { full };
@@ -221,6 +257,11 @@ pub fn transport_trace(args: &[String]) -> anyhow::Result<()> {
         let mut plan = vec![];
         let mut covered = 0usize;
         while covered < cut + 8 {
+            if rng.chance(1, 25) {
+                // nothing arrives for a few seconds
+                plan.push(PAUSE + *rng.pick(&[1500usize, 2500, 11000, 61000]));
+                continue;
+            }
             let c = match rng.below(10) {
                 0 => 0,
                 1 | 2 | 3 => 1,
@@ -242,7 +283,7 @@ pub fn transport_trace(args: &[String]) -> anyhow::Result<()> {
             s.log_bytes_upto = 5;
         }
         let hdrs: Vec<usize> = written.iter().map(|p| if p.len() >= 3 && p[2] == 0xff { 5 } else { 3 }).collect();
-        writeln!(w, "{}", json!({"e": "reset", "lens": group, "hdrs": hdrs, "cut": cut, "full": full}))?;
+        writeln!(w, "{}", json!({"e": "reset", "lens": group, "hdrs": hdrs, "forced": forced, "cut": cut, "full": full}))?;
         let mut pt = PacketTransport { source: src.clone() };
         rt.block_on(read_all(&mut pt, &written, k + 2));
         for e in src.0.lock().unwrap().events.iter() {
